@@ -8,6 +8,7 @@ CONSTANTS
   ConsSet <- FreeOnly
   MaxSteps = 1
   Emit = TRUE
+  MatChange = FALSE
   Mutant = "midpoint_velocity"
 INVARIANT Motion
 INVARIANT Prescribed
